@@ -94,6 +94,11 @@ PROPS = {
              "bound": "uninterpreted IF_DATA holding every %d-lexeme soup over {/begin B, /end B, ident, hex number, string, empty string, block comment, line comment, embedded A2ML section (raw text '\"' / 'x y')}, closed or cut off, strict and non-strict: loading returns, accepted text loads again" % n,
              "timeout": 300, "extra_modules": ["tokenizer"], "max_steps": 3000000, "quick": n <= 2, "msg_prefix": "C03"}
             for n in (1, 2, 3)
+        ] + [
+            {"engine": "E2", "module": "lib", "harness": "h_fragment_soup_%d" % n, "functions": ["load_fragment", "tokenizer::tokenize", "specification::Module::parse", "a2ml::parse_a2ml", "parser::ParserState::*"],
+             "bound": "entry point load_fragment: every %d-lexeme soup over {MEASUREMENT, /begin, /end, /end MODULE, keyword, number, string, comments, /include of a missing file, A2ML block, IF_DATA block} x built-in A2ML specification {none, valid, truncated}" % n,
+             "timeout": 400, "extra_modules": ["tokenizer"], "max_steps": 3000000, "quick": n <= 2}
+            for n in (1, 2, 3)
         ],
     },
     "C13": {
@@ -291,6 +296,8 @@ PROPS = {
              "bound": "0-2 blank lines before /end A2ML x 4 gaps inside an uninterpreted IF_DATA with two nested blocks, each from {space, LF, blank line, CRLF} (768 layouts)", "timeout": 600, "extra_modules": ["tokenizer"], "validate": 40, "quick": False},
             {"engine": "E2", "module": "lib", "harness": "h_layout_ifdata_small", "functions": ["load_from_string", "tokenizer::handle_a2ml", "ifdata::parse_unknown_taggedstruct", "a2ml::GenericIfData::write_item"],
              "bound": "0-2 blank lines before /end A2ML x 2 gaps (before /end INNER, before /end OUTER) from {space, LF, blank line, CRLF} (48 layouts)", "timeout": 400, "extra_modules": ["tokenizer"], "validate": 20},
+            {"engine": "E2", "module": "lib", "harness": "h_layout_sequences", "functions": ["load_from_string", "A2lFile::write_to_string", "writer::Writer::add_whitespace", "specification::{InMeasurement,CompuVtab,MemoryLayout,AnnotationText,FixAxisParList}::parse / stringify (item_location of sequences and arrays)"],
+             "bound": "3 gaps between list items, each from {same line, next line, blank line}, applied to an identifier list, a value-pair list, a long[5] array, a string list and a float list (27 layouts)", "timeout": 300, "extra_modules": ["tokenizer"], "must_cover": ["layout_sequences_end"]},
             {"engine": "E2", "module": "lib", "harness": "h_every_element_roundtrip", "msg_prefix": "C05", "functions": ["load_from_string", "A2lFile::write_to_string", "writer::Writer::*", "specification::*::stringify of every element"],
              "bound": "the every-element document (writer's own format, 465 lines, hex and decimal notation alternating): reproduced byte for byte", "timeout": 900, "extra_modules": ["tokenizer"], "max_steps": 300000000,
              "must_cover": ["generated document and fingerprint module are in place"]},
@@ -357,6 +364,8 @@ PROPS = {
              "bound": "UNIT namespace with pre-existing X.MERGE / X.MERGE2 names in A and/or B (symbolic presence bits), conflicting X", "timeout": 400, "extra_modules": ["tokenizer"]},
             {"engine": "E2", "module": "lib", "harness": "h_merge_named_union", "msg_prefix": "C08", "functions": ["merge::merge_function", "merge::merge_group"],
              "bound": "same-name FUNCTION / GROUP: A's element without members and with own attributes, B's with members (plus the 2 renaming scenarios)", "timeout": 600, "extra_modules": ["tokenizer"]},
+            {"engine": "E2", "module": "lib", "harness": "h_merge_unnamed_parts", "functions": ["merge::merge_a2ml", "merge::merge_mod_par", "merge::merge_mod_common", "merge::merge_if_data", "merge::merge_user_rights", "merge::merge_variant_coding"],
+             "bound": "A2ML / MOD_PAR / MOD_COMMON / VARIANT_CODING and IF_DATA / USER_RIGHTS present or absent in A (4) and B (3): A's parts unchanged, parts only B has are taken over, second merge changes nothing (12 pairs)", "timeout": 300, "extra_modules": ["tokenizer"], "must_cover": ["merge_unnamed_parts_end"]},
             {"engine": "E2", "module": "lib", "harness": "h_merge_cross_kind", "msg_prefix": "C08", "functions": ["merge::merge_objects", "merge::merge_compu_tab", "module::Module::objects", "module::Module::compu_tabs", "module::Module::typedefs"],
              "bound": "same name used by elements of different kinds of one namespace in A and B (object kinds, table kinds, typedef kinds; symbolic kind choice)", "timeout": 400, "extra_modules": ["tokenizer"]},
         ],
@@ -386,6 +395,8 @@ PROPS = {
              "bound": "36 splittings x {quoted, unquoted} x {with, without a further include behind the nested one}", "timeout": 400, "extra_modules": ["tokenizer"], "validate": 36},
             {"engine": "E2", "module": "lib", "harness": "h_include_missing", "functions": ["load", "tokenizer::tokenize", "loader::load"],
              "bound": "missing include file, directly or nested, quoted or unquoted", "timeout": 200, "extra_modules": ["tokenizer"]},
+            {"engine": "E2", "module": "lib", "harness": "h_include_edge_cases", "functions": ["load", "tokenizer::tokenize (include handling)", "A2lFile::write_to_string", "A2lFile::merge_includes"],
+             "bound": "include file {empty, only a comment, only white space, two elements, element + trailing comment} x directive {first, middle, last item of MODULE} x quoted / unquoted (30 file systems)", "timeout": 400, "extra_modules": ["tokenizer"], "must_cover": ["include_edge_cases_end"], "validate": 30},
             {"engine": "E2", "module": "lib", "harness": "h_include_paths", "functions": ["load", "loader::make_include_filename", "loader::load", "tokenizer::tokenize (include handling)", "a2ml::tokenize_include", "A2lFile::write_to_string", "A2lFile::merge_includes"],
              "bound": "main file in the current directory or one below x separator / or \\ x quoted / unquoted x with / without an A2ML include inside the included fragment; nested include in a sub-directory with decoy files of the same name next to the main file and in the current directory (16 file systems)", "timeout": 400, "extra_modules": ["tokenizer"], "must_cover": ["include_paths_end"], "validate": 16},
         ],
